@@ -39,6 +39,13 @@ var c15Templates = []string{
 	// more literal dots than the shortest values have bytes
 	"/v1.0/f.x/{name}.json",
 	"/d.o.t.s/{a}/{b}",
+	// static routes whose literal text holds characters that are special in a URL reference
+	"/lang/c#/intro",
+	"/faq/why?/short",
+	"/sale/50%25/off",
+	"/a b/c;d/e&f=g",
+	// a two-node literal head in front of two variables
+	"/api/{ver}/{id}",
 }
 
 var c15Values = []string{"7", "20", "ab", "a b", "é", "100%", "a?b", "a#b", "a;b", "a%2Fb", ".", "..", "a/b", "x.json", "0", "a+b", "a&b=c", " ", "%41"}
@@ -70,6 +77,10 @@ func c15Gen(tier string, emit func(c15Case)) {
 			emit(c15Case{Kind: "build", Template: t, Style: st, Reg: "late-after-miss"})
 			// a caching router with room for two entries only: all URLs are built and requested in two passes
 			emit(c15Case{Kind: "build", Template: t, Style: st, Reg: "tiny-cache-two-passes"})
+			// a later route that has one of the values as literal text where the template has its first variable
+			if strings.Count(t, "{") >= 2 {
+				emit(c15Case{Kind: "build", Template: t, Style: st, Reg: "literal-decoy-after"})
+			}
 		}
 	}
 	// naming: all sequences of <= 3 operations over 2 names x 3 APIs
@@ -234,6 +245,26 @@ func c15Run(c c15Case, st *fw.Stats) []fw.Viol {
 		// registered below, after the misses
 	default:
 		r.AddNamed("target", c.Template, th, "GET")
+	}
+	if c.Reg == "literal-decoy-after" {
+		// a LATER route of the same method that spells the first variable of the template as a literal (one of the
+		// values) and keeps the other variables: the named route was registered first and still wins
+		first := true
+		decoy := c15VarRe.ReplaceAllStringFunc(c.Template, func(m string) string {
+			if first {
+				first = false
+				sm := c15VarRe.FindStringSubmatch(m)
+				for _, v := range []string{"ab", "7", "20"} {
+					if sm[2] == "" || regexp.MustCompile("^(?:"+sm[2]+")$").MatchString(v) {
+						return v
+					}
+				}
+			}
+			return m
+		})
+		if decoy != c.Template && strings.Contains(decoy, "{") {
+			_ = try(func() { r.GET(decoy, func(ctx *rux.Context) { seenIdx = 5 }) })
+		}
 	}
 	// another named route, used to check that a builder object can be reused across routes
 	r.AddNamed("other", "/other/{o}", func(ctx *rux.Context) { seenIdx = 2 }, "GET")
@@ -404,7 +435,7 @@ func c15Run(c c15Case, st *fw.Stats) []fw.Viol {
 var c15Spec = fw.Spec[c15Case]{
 	ID:    "C15",
 	Level: "model_checking",
-	Rule: "complete product: 19 named templates (static, leading variable next to dynamic decoys whose literal first segment is one of the values, default / custom / global variable regexes, 1-3 variables, literal prefix and suffix around a variable, '.' in the literal text - also more dots than the shortest values have bytes) x ALL value tuples over 19 values (spaces, non-ASCII, %, ?, #, ;, encoded slash, dots, slash where the regex admits it) that satisfy the variables' regexes x 4 argument styles (M map, key/value pairs, BuildRequestURL builder, one builder object reused across routes) x 6 registrations (on a caching router with two cache slots, every URL built and requested in two passes; on a caching router that answered 'no route' for every URL before the route existed; top-level AddNamed; NewNamedRoute + ToURL() + AddRoute inside a group; named after registration with NamedTo; after a POST route with the same skeleton and variable names but other variable regexes) x 4 sets of extra query arguments; " +
+	Rule: "complete product: 24 named templates (static - also with '#', '?', '%25', ';', '&' and blanks in the literal text -, leading variable next to dynamic decoys whose literal first segment is one of the values, default / custom / global variable regexes, 1-3 variables, literal prefix and suffix around a variable, '.' in the literal text - also more dots than the shortest values have bytes) x ALL value tuples over 19 values (spaces, non-ASCII, %, ?, #, ;, encoded slash, dots, slash where the regex admits it) that satisfy the variables' regexes x 4 argument styles (M map, key/value pairs, BuildRequestURL builder, one builder object reused across routes) x 7 registrations (followed by a later route that spells the template's first variable as a literal equal to one of the values; on a caching router with two cache slots, every URL built and requested in two passes; on a caching router that answered 'no route' for every URL before the route existed; top-level AddNamed; NewNamedRoute + ToURL() + AddRoute inside a group; named after registration with NamedTo; after a POST route with the same skeleton and variable names but other variable regexes) x 4 sets of extra query arguments; " +
 		"each built URL is matched (Match on u.Path) and requested (ServeHTTP on a request parsed from u.String()); naming: all sequences of <=3 (thorough 4) naming operations over 2 names x {AddNamed, NewNamedRoute+AddRoute, route.NamedTo on a new route, NamedTo renaming the first / the previous route}; non-trivial = a template with variables / a sequence of >=2 naming operations",
 	Assume: []string{"values containing '{' or '}' are excluded: Build substitutes in Go map order, which the harness cannot own", "routes without optional parts, as the statement says", "value tuples that spell a path which is not in normal form (white space or '/' at the very end) are skipped: path normalisation (C11) ignores those characters by design"},
 	Bounds: func(tier string) map[string]any {
